@@ -1721,6 +1721,23 @@ var _ uuid.UUID
 // a new index: the defaults of a configuration without options (ef 20, efConstruction 200, m 16, mMax 16, mMax0 32, simple
 // selection), sixteen shard maps of its own, nothing stored, the given dimension and metric; a partition's index gets the
 // dimension and the metric of its dataset's record
+// a new allocator: an empty registry of its own over the given connection book, and exactly one loop started for it
+//@ func context.Background
+//@ props C14 C05 C12
+//@ assume
+//@ modifies nothing
+//@ func storage.NewAllocator
+//@ props C14 C05 C12
+//@ safety UNCLAIMED
+//@ ghost loops int = 0
+//@ at go Allocator).run
+//@ requires [C14 one-loop-per-allocator] loops == 0
+//@ set loops = 1
+//@ end
+//@ ensures [a] ret != nil && fresh(ret) && ret.clusterConn == clusterConn && ret.partitions != nil && fresh(ret.partitions) && len(ret.partitions) == 0 && ret.updatesC != nil && ret.partitionsMu != nil
+//@ ensures [C14 its-loop-is-running] loops == 1
+//@ modifies nothing
+
 // C14 (wiring): the catalogue manager registers its three consumers (apply, restore, snapshot) with the group it is given -
 // each once, all three or an error - and starts with an empty catalogue over the given store, transport, book and allocator
 //@ func utils.NewNotificator
